@@ -237,7 +237,7 @@ def fnum(x):
 
 def canon_val(v, strict_float, problems):
     """numeric value as the property sees it: ('num', x) for one number, ('arr', xs) for samples"""
-    if isinstance(v, np.ndarray) and v.ndim == 1 and v.size > 1:
+    if isinstance(v, np.ndarray) and v.ndim == 1 and v.size > 1 and v.dtype.kind in "fi":
         if strict_float and v.dtype.kind != "f":
             problems.append(f"sample array came back with dtype {v.dtype}")
         return ("arr", tuple(float(x) for x in v.tolist()))
@@ -371,7 +371,9 @@ def cresult_cells_fl(thunk):
             elif isinstance(v, (int, float, np.integer, np.floating)) and not isinstance(v, (bool, np.bool_)):
                 vals[k] = float(v)
             else:
-                raise ct.NotRepresentable(f"result value {type(v)} {v!r}")
+                # not a number / numeric sample array: not representable in the model; the Coq side sees an
+                # error result (so every comparison fails) and the Python oracle reports the concrete input
+                return "(Err TypeError)", t, None
         out.append(ccell_raw(c, m2, vals))
     return "(Ok [" + ";\n   ".join(out) + "])", t, None
 
